@@ -361,31 +361,48 @@ def dominating_tests(g, node):
 def h_mon_then_tensor(ctx, mod, q, fn, c, kind):
     which = q.split(".")[-1]
     probs = []
-    a = Gen("a")
-    b = Gen("b", dom=a.COD) if which == "then" else Gen("b")
-    ev = Ev01(Facts(), q)
     self_ = fn.args.args[0].arg
-    env = {self_: a.value, "Sum": Obj("cls", name="Sum")}
-    if which == "then":
-        env[fn.args.vararg.arg] = (b.value,)
-    else:
-        env[fn.args.args[1].arg] = b.value
-        if fn.args.vararg:
-            env[fn.args.vararg.arg] = ()
-    ev.builtins["isinstance"] = lambda v, cl: (getattr(cl, "f", {}).get("name") or "Diagram") in v.f.get("isa", ()) if isinstance(v, Obj) else False
-    try:
-        r = ev.run(fn.body, env)
-        if not r or r[0] != "return" or not isinstance(r[1], Obj) or r[1].kind != "Diagram":
-            raise Unsupported("main path does not return a Diagram construction")
-        res = r[1]
-        fails = []
-        check_RI(res, ev, fails, which)
-        probs += fails
-        ctx.summaries[which] = (res, a, b, ev)
-    except Unlocatable as e:
-        probs.append("slice boundary: %s" % e)
-    except (Unsupported, Undecided) as e:
-        raise AnalysisError("%s outside the recognised idioms: %s" % (q, e))
+    work, done = [Facts()], 0
+    while work:
+        facts = work.pop()
+        done += 1
+        if done > 8:
+            raise AnalysisError("%s: too many case splits" % q)
+        a = Gen("a")
+        b = Gen("b", dom=a.COD) if which == "then" else Gen("b")
+        facts = Facts([f.subst({}) for f in facts.ge], facts.free)
+        # case facts are about the numbers of boxes of the two generic diagrams
+        facts = Facts([f.subst({"n_a#": a.n, "n_b#": b.n}) for f in facts.ge])
+        ev = Ev01(facts, q)
+        env = {self_: a.value, "Sum": Obj("cls", name="Sum")}
+        if which == "then":
+            env[fn.args.vararg.arg] = (b.value,)
+        else:
+            env[fn.args.args[1].arg] = b.value
+            if fn.args.vararg:
+                env[fn.args.vararg.arg] = ()
+        ev.builtins["isinstance"] = lambda v, cl: (getattr(cl, "f", {}).get("name") or "Diagram") in v.f.get("isa", ()) if isinstance(v, Obj) else False
+        try:
+            r = ev.run(fn.body, env)
+            if not r or r[0] != "return" or not isinstance(r[1], Obj) or r[1].kind != "Diagram":
+                raise Unsupported("main path does not return a Diagram construction")
+            res = r[1]
+            fails = []
+            check_RI(res, ev, fails, which)
+            probs += ["%s%s" % (f, "" if not facts.ge else "  [case %s]" % facts.ge) for f in fails]
+            ctx.summaries.setdefault(which, (res, a, b, ev))
+        except Unlocatable as e:
+            probs.append("slice boundary: %s" % e)
+        except Undecided as e:
+            lin = e.lin
+            if lin is None or not (lin.vars() <= {"n_a", "n_b"}):
+                raise AnalysisError("%s outside the recognised idioms: %s" % (q, e))
+            gen = lin.subst({"n_a": Lin.var("n_a#"), "n_b": Lin.var("n_b#")})
+            base = [f.subst({"n_a": Lin.var("n_a#"), "n_b": Lin.var("n_b#")}) for f in facts.ge]
+            work.append(Facts(base + [gen, -gen]))          # == 0
+            work.append(Facts(base + [gen - 1]))            # >= 1
+        except Unsupported as e:
+            raise AnalysisError("%s outside the recognised idioms: %s" % (q, e))
     return probs, "generic-instance(%s)" % which
 
 
